@@ -107,6 +107,52 @@ def run(chk, replay=None):
                 chk.violate('runs before and after do not produce the same ciphertext with the same key file', case, tags=['reuse', 'history'])
         finally:
             shutil.rmtree(d, ignore_errors=True)
+    # a FIRST run that creates the key and then fails part-way (an over-long line, a gzip stream cut in its body, a full device) after ciphertext
+    # has already been written: whatever ciphertext is in the output must stay decryptable - the key stored before it was written is still
+    # there, reads back, and the next run uses it
+    from vlib import streams as _st, streamlib as _sl
+    LIMK = _st.line_limit()
+    for scenario in ('toolong', 'gzcut', 'second_run_fails'):
+        d = tempfile.mkdtemp(prefix='c11f_')
+        try:
+            good = LINES
+            kp = os.path.join(d, 'fresh.key')
+            if scenario == 'toolong':
+                if LIMK is None: continue
+                inp = os.path.join(d, 'in.log'); open(inp, 'wb').write(good + b'x' * (LIMK + 100) + b'\n' + good)
+            elif scenario == 'gzcut':
+                big = good * 400
+                gzb = _sl.gz_bytes(big); inp = os.path.join(d, 'in.log.gz'); open(inp, 'wb').write(gzb[: len(gzb) * 2 // 3])
+            else:
+                inp = os.path.join(d, 'in.log'); open(inp, 'wb').write(good)
+            o1 = os.path.join(d, 'o1.log')
+            p1 = subprocess.run([CLI, 'redact', inp, '-o', o1, '-y', '-q', kp], stdin=subprocess.DEVNULL, capture_output=True)
+            if scenario == 'second_run_fails':      # the key-creating run succeeds; the NEXT run (same key path) fails part-way
+                inp2 = os.path.join(d, 'in2.log'); open(inp2, 'wb').write(good + (b'x' * ((LIMK or 70000) + 100)) + b'\n')
+                subprocess.run([CLI, 'redact', inp2, '-o', os.path.join(d, 'o1b.log'), '-y', '-q', kp], stdin=subprocess.DEVNULL, capture_output=True)
+            out1 = open(o1, 'rb').read() if os.path.exists(o1) else b''
+            chk.count(); chk.nontriv(('failing-first-run', scenario))
+            case = {'history': 'key-creating run that fails part-way: ' + scenario, 'rc': p1.returncode, 'stderr': p1.stderr.decode('utf-8', 'replace')[-200:], 'output_lines': out1.count(b'\n')}
+            key_now = snapshot(kp)
+            if out1.strip():
+                ok = key_now[0] == 'file'
+                try: ok = ok and len(base64.b64decode(key_now[1], validate=True)) == 64
+                except Exception: ok = False
+                if not ok:
+                    chk.violate('redacted output with ciphertext was written but the key it was encrypted under is not in the key file afterwards', dict(case, key_now=str(key_now)[:80]), tags=['create', 'failing-run'])
+                else:
+                    # the next run over the same key path must encrypt the same line to the same ciphertext
+                    inp3 = os.path.join(d, 'in3.log'); open(inp3, 'wb').write(good)
+                    o3 = os.path.join(d, 'o3.log')
+                    p3 = subprocess.run([CLI, 'redact', inp3, '-o', o3, '-y', '-q', kp], stdin=subprocess.DEVNULL, capture_output=True)
+                    out3 = open(o3, 'rb').read() if os.path.exists(o3) else b''
+                    n = good.count(b'\n')
+                    if p3.returncode != 0 or out3.split(b'\n')[:n] != out1.split(b'\n')[:n] or snapshot(kp) != key_now:
+                        chk.violate('the key stored by a failing first run is not the key the next run uses', case, tags=['reuse', 'failing-run'])
+            if scenario != 'second_run_fails' and p1.returncode == 0:
+                chk.violate('a run that cannot complete reported success', case, tags=['silent', 'failing-run'])
+        finally:
+            shutil.rmtree(d, ignore_errors=True)
     # spellings of the key path: the file the user NAMED (relative to the working directory, as the OS resolves it) is the one that is
     # created / used / refused - whatever its first character
     spellings = ['key.file', './key.file', '~/in-a-dir-named-tilde.key', '~team.key', '~keys/prod.key', '~', 'sp ace.key', 'k\u00e9y.key', 'sub/../key2.file', '-dash.key', '.hidden', 'a~b.key', '$HOME.key', '%s.key', None]
